@@ -12,7 +12,10 @@ gama-g3 sources:
     (what they *mean* was taken from Model::linearization right hand sides:
     a height is  H_ellipsoidal - geoid,  a zenith angle is measured from the
     ellipsoidal normal, an azimuth from the local north of the station, an
-    angle is the clockwise horizontal angle left -> right at the station),
+    angle is the clockwise horizontal angle left -> right at the station;
+    with <from-dh> / <to-dh> the value refers to the instrument / the target,
+    i.e. to the points displaced by that height along their own ellipsoidal
+    normal - Model::instrument, Point::X_dh - see class Ob),
   * reference Jacobian w.r.t. local n/e/u displacements of every point by
     central differences with Richardson extrapolation,
   * exact rank / null space of the scaled-integer Jacobian by Gaussian
@@ -113,10 +116,49 @@ def obs_points(o):
     return list(o[1:])
 
 
+# types whose observed value refers to an instrument / a target above the marks
+# (read off DataParser::g3_obs_*: <from-dh>/<to-dh> are accepted by <vector>, <distance>,
+# <zenith>, <azimuth>; <angle> accepts <from-dh>; <hdiff> stores nothing, its tags are
+# commented out).  'f' = from-dh, 't' = to-dh.
+DH_ENDS = {"vector": "ft", "distance": "ft", "zenith": "ft", "azimuth": "ft", "angle": "f"}
+
+
+class Ob(tuple):
+    """an observation tuple (type, ids...) that carries instrument / target heights:
+    .dh = (from_dh, to_dh) in metres (0.0 = not given), .dhs = the strings written to
+    the input file (None = element not written).  Compares and hashes as the plain tuple."""
+    def __new__(cls, o, dhs=(None, None)):
+        self = tuple.__new__(cls, tuple(o))
+        self.dhs = tuple(dhs)
+        self.dh = tuple(float(s) if s is not None else 0.0 for s in dhs)
+        return self
+
+
+def up_at(p):
+    """unit normal of the ellipsoid (the local vertical: no deflections) at point p"""
+    b, l, _ = xyz2blh(*p)
+    return frame(b, l)[2]
+
+
+def lifted(p, dh):
+    """the point dh metres above / below p along its local vertical"""
+    return add(p, mul(up_at(p), dh)) if dh else p
+
+
 def obs_value(o, X, geoid=None):
-    """tuple of values: metres for linear types, radians for angular types"""
+    """tuple of values: metres for linear types, radians for angular types.
+    If o carries heights (class Ob) the value refers to the instrument above the
+    first point and - except for angles, whose targets carry no to-dh - to the
+    target above the second one, both displaced along their own local vertical."""
     t = o[0]
     geoid = geoid or {}
+    dh = getattr(o, "dh", None)
+    if dh and (dh[0] or dh[1]) and t in DH_ENDS:
+        X = dict(X)
+        if dh[0] and "f" in DH_ENDS[t]:
+            X[o[1]] = lifted(X[o[1]], dh[0])
+        if dh[1] and "t" in DH_ENDS[t]:
+            X[o[2]] = lifted(X[o[2]], dh[1])
     if t == "vector":
         return sub(X[o[2]], X[o[1]])
     if t == "xyz":
